@@ -63,7 +63,7 @@ func judgeInter(s *core.Shard, ic interCase, sink func(map[string]string, string
 		}
 		if ic.Fail {
 			if r.Err == nil {
-				sink(map[string]string{"kind": "missing-required-accepted", "scenario": ic.Kind}, "a required env file shared with a service that marks it optional is missing, but the load succeeded", files)
+				sink(map[string]string{"kind": "missing-required-accepted", "scenario": ic.Kind}, "a required env file that cannot be read (" + ic.Kind + ") did not make the load fail", files)
 				return
 			}
 			continue
@@ -156,6 +156,18 @@ func interactions(idx int) []interCase {
 			ic.Want = want
 		}
 		out = append(out, ic)
+	}
+	// D: a required env file that cannot be found for another reason than "no such file":
+	// a path component is a regular file, or the name is longer than the file system allows
+	for vi, bad := range []string{"present.env/extra.env", strings.Repeat("n", 300) + ".env"} {
+		c := ld.Case{Files: map[string]string{"present.env": "P=1\n"}, ComposeFiles: []string{"compose.yaml"}}
+		req := idx%2 == 0
+		entry := "      - path: " + bad + "\n"
+		if !req {
+			entry = "      - " + bad + "\n" // short syntax: required by default
+		}
+		c.Files["compose.yaml"] = "services:\n  " + names[0] + ":\n    image: img\n    env_file:\n      - present.env\n" + entry
+		out = append(out, interCase{Kind: fmt.Sprintf("required-env-file-unreachable-%d", vi), Case: c, Fail: true})
 	}
 	// C: profile-disabled service, load with discard, then enable it
 	{
